@@ -8,6 +8,27 @@ def repo_commits():
     return [l.split()[0] for l in out.splitlines() if " verif:" in " " + l]
 
 CHECKS = {
+ "C01": dict(
+  level="exploration", design="§4 C01",
+  technique="runtime monitoring: interleavings enumerated by DFS and enforced on the real adapter/NATS transports through verif yield points; hook-free concurrent stress with PRNG response plans; porcupine linearizability check of recorded registry histories",
+  text="Every interleaving (bounded: k<=3 callers, <=3 duplicates, late and never-issued ids; exhaustive for small plans, seeded samples for larger ones) of caller/reader/timeout/unregister steps is forced on the real code and each caller's outcome compared with the frame that was delivered to it; plus thousands of unconstrained concurrent trials and linearizability of Register/Unregister/dispatch histories. Held-on-observed.",
+  note="Trusted: hook placement (request.registered / send.begin / send.end / request.gotResult / request.timedOut mark the steps they name), the reference frame codec, porcupine. Schedules are at hook granularity, not instruction granularity."),
+ "C06": dict(
+  level="exploration", design="§4 C06",
+  technique="runtime monitoring: enforced schedules holding registrations across duplicate deliveries, logical blocked-forever oracle on hook events (send.begin without send.end while no goroutine can receive), fresh-request liveness probe, hook-free burst stress",
+  text="The reader's progress is observed after every adversarial inbound history (duplicates x4, late, unknown ids) under enforced interleavings and under free-running stress with up to 64 callers; a stall is reported only when the delivery provably cannot complete. Bounded progress, not unbounded liveness.",
+  note="Trusted: hook placement; the claim 'only the caller receives from its result channel' (true for both transports). An eventual-delivery bug slower than the 3 s observation window without a parked delivery would be inconclusive, not a violation."),
+ "C17": dict(
+  level="exploration", design="§4 C17",
+  technique="runtime monitoring: exhaustive set-size check over every op id produced in the run, Go race detector on a concurrent workload (reports counted from GORACE log), porcupine per-key register linearizability of header histories, snapshot-based clone independence scripts",
+  text="About 10^5 (quick) to 10^6 (thorough) contexts are created/cloned/received concurrently and all op ids compared; shared-context header histories are checked for linearizability; clone trees are mutated and compared with snapshots; the same workloads run under -race. Held-on-observed.",
+  note="Trusted: porcupine, the Go race detector (only reports races it observes), the harness' own recorder (mutex-guarded)."),
+ "C20": dict(
+  level="exploration", design="§4 C20",
+  technique="runtime monitoring: configuration sweep of a real FNatsServer on an embedded nats-server in child processes; exactly-once / reply-before-Serve-returns oracle over recorded request ids and event-handler counters; goroutine-dump based no-return criterion",
+  text="Workers x queue length x burst x handler duration x Stop position (incl. queue-full and callback-blocked states forced by a gate handler) are swept; every request double-flushed before Stop must be processed exactly once with its reply published when Serve returns; later requests never. Held-on-observed.",
+  note="Trusted: nats-server/nats.go ordering (PONG after queued MSGs) defining 'received before Stop', the recording processor. Requests racing Stop are only checked at-most-once."),
+
  "C04": dict(
   level="exploration", design="§4 C04",
   technique="runtime monitoring: differential execution of the real Go header codec against a reference codec written from the documentation and against the repository's Python codec, over seeded random header maps",
